@@ -343,6 +343,26 @@ def run(ctx):
                             by = {mc.block_target(bl): mc.normalise_block(bl) for bl in mc.split_text_blocks(out)}
                             if by.get(ip) != mc.normalise_block(sout):
                                 fail('policy_verdict_differs_from_single', {'targets': list(combo), 'threads': threads, 'target': n, 'format': 'text'}, (by.get(ip) or '')[:300], mc.normalise_block(sout)[:300])
+        # policy fleets in which a target's handshake breaks (after the banner / before it): what such a target prints in the fleet is what it prints alone —
+        # in particular no verdict appears for a target whose algorithm lists were never obtained (seed C02-8)
+        pservers = dict(servers)
+        pservers.update({k: v for k, v in mc.fail_servers().items() if k in ('closeafterbanner', 'wrongtype', 'trunckex', 'refused', 'silent')})
+        for combo in (('A', 'closeafterbanner', 'G'), ('wrongtype', 'A'), ('G', 'trunckex', 'refused'), ('silent', 'B', 'closeafterbanner')):
+            for threads in (1, 2):
+                code, out, hosts, net = mc.run_targets(list(combo), pservers, threads=threads, extra=[], policy=pol)
+                cov.add(('policy-faults', combo, threads), True, tags=['policy-multi', 'policy-multi-faults'])
+                for m_ in mc_direct_lines():
+                    out = out.replace(m_ + '\n', '')
+                got = sorted(mc.normalise_block(bl) for bl in mc.split_text_blocks(out))
+                want = []
+                for n, ip in zip(combo, hosts):
+                    scode, sout = mc.run_single(n, pservers, ip, [], policy=pol)
+                    for m_ in mc_direct_lines():
+                        sout = sout.replace(m_ + '\n', '')
+                    want.append(mc.normalise_block(sout))
+                if got != sorted(want):
+                    fail('policy_verdict_differs_from_single', {'targets': list(combo), 'threads': threads, 'format': 'text', 'faults': True},
+                         [b for b in got if b not in want][:2], [b for b in want if b not in got][:2])
     finally:
         for f in os.listdir(d):
             os.unlink(os.path.join(d, f))
